@@ -1,0 +1,29 @@
+//go:build verif
+
+package codegen
+
+import "github.com/dcaiafa/lox/internal/parsergen/lr1"
+
+// VerifTableArray exposes the row-compressed table encoder used for the
+// emitted parser and lexer tables, for the verification harness.
+func VerifTableArray(indices []int, rows [][]int32) []int32 {
+	t := newTable[int32]()
+	for i, idx := range indices {
+		t.AddRow(idx, rows[i])
+	}
+	return t.Array()
+}
+
+// VerifTableArrayU is VerifTableArray for the uint32 instantiation.
+func VerifTableArrayU(indices []int, rows [][]uint32) []uint32 {
+	t := newTable[uint32]()
+	for i, idx := range indices {
+		t.AddRow(idx, rows[i])
+	}
+	return t.Array()
+}
+
+// VerifRuleGenerated exposes the rule-kind classification as a string.
+func VerifRuleGenerated(name string) string {
+	return string(RuleGenerated(&lr1.Rule{Name: name}))
+}
